@@ -9,7 +9,9 @@ ENGINES = [
     dict(name="Recovery", path="spec/Recovery.tla", serves_properties=["C01", "C14"],
          kind_free_text="TLA+ spec of a whole reduction cluster at message granularity (runner reads, per-(runner,operator) channels with "
                         "head-of-line blocking, barrier alignment, operator batching, job checkpoint coordination with acks in any order, "
-                        "asynchronous publication, Kill of any node set at any state, Restart from the newest published checkpoint) over "
+                        "asynchronous publication (several writes in flight, superseded writes), Kill of any node set at any state, Restart from the newest "
+                        "published checkpoint with the same or ANOTHER worker count (key groups re-cut like partitioning.KeySpace, old operator checkpoints "
+                        "assigned by range overlap like jobs.Assembly.Deploy / partitioning.AssignRanges) over "
                         "abstract operator stores; TLC exhaustive + behaviours replayed through the message-level gates of the in-process "
                         "cluster kit harness/cluster (real jobs.Job, SourceRunner, Operator, dkv) by harness/cmd/recovery; "
                         "spec/RecoveryTrace.tla validates recorded free-running executions"),
@@ -17,17 +19,26 @@ ENGINES = [
 CHECKS = {
     "C01": dict(
         engine="Recovery",
-        technique="TLA+/TLC model checking of Recovery.tla; TLC-generated kill/ack/delivery schedules replayed on the real in-process cluster "
-                  "through harness-owned adapters (no network, no hooks); recorded seeded free-running runs validated by RecoveryTrace.tla; one cut per restart: spec/Restart.tla (start() stepped, publication in two steps) replayed on the real jobs.Job with fake nodes, the snapshot write and every step of start() gated (checks/restartlib.py)",
+        technique="TLA+/TLC model checking of Recovery.tla; TLC-generated kill/ack/delivery/publication/rescale schedules replayed on the real "
+                  "in-process cluster through harness-owned adapters (no network; only the verif-tag tunables of dkv's memtable / level sizes); "
+                  "recorded seeded free-running runs validated by RecoveryTrace.tla; one cut per restart: spec/Restart.tla (start() stepped, "
+                  "publication in two steps) replayed on the real jobs.Job with fake nodes, the snapshot write and every step of start() gated "
+                  "(checks/restartlib.py)",
         text="TLC exhaustively checks NoDouble/SeenIsClean/NoLoss/FinalState/ConsistentCut for 2 workers, 2 splits x 2 records, <=2 checkpoints, "
              "<=2 kills of any node set (incl. the job) at every state and every ack order; hundreds of simulated behaviours of the same spec are "
              "forced step by step onto the real Job/SourceRunner/Operator/dkv and judged by the state the real handler is given for every event, "
              "every published job checkpoint read back from the operators' DKV checkpoint files, and the final state; seeded free-running runs with "
-             "random ack orders, kill sets and kill moments are validated as traces.",
-        note="Bounded constants; one assembly per job (a restart is a new Job + fresh workers; of a re-assembly inside a living job the restart arm "
-             "- Restart.tla stepped through start() of the real jobs.Job with the publication gated - checks that operators and sources resume from "
-             "one cut, the rest is C15); rescale on restart and DKV "
-             "flush/compaction under the operators are not exercised (default memtable sizes); watermarks are dropped in replay mode and passed in "
-             "trace mode; publication (write + delete old + retention round) is atomic w.r.t. kills; no new checkpoint is started while a "
-             "publication is in flight or a node is dead."),
+             "random ack orders, kill sets and kill moments are validated as traces. "
+             "Further arms (checks/c01_deep.py): the same replay and trace runs with dkv memtables of a few dozen bytes and 1-byte levels, so that "
+             "flushes and compactions run under the operators and restarts restore from compacted tables + L0 tables + WAL tails (counted; zero = "
+             "machinery error); restart with another worker count (1<->2 exhaustive in TLC, 1<->2 and 2<->3 replayed, 1..3 in free-running traces): "
+             "splits re-assigned, several old operator checkpoints merged into one new operator / one old checkpoint shared by several; a new "
+             "checkpoint created while the previous snapshot write is in flight, writes landing in either order, kills inside that window.",
+        note="Bounded constants (worker counts 1..3); one assembly per job (a restart is a new Job + fresh workers; the worker count only "
+             "changes with such a restart; of a re-assembly inside a living job the restart arm - Restart.tla stepped through start() of the real "
+             "jobs.Job with the publication gated - checks that operators and sources resume from one cut, the rest is C15); dkv flush/compaction run free under the operators (tuned sizes), their "
+             "interleaving with the DKV checkpoint is sampled by the Go scheduler, not enumerated (C08/C18 enumerate it); watermarks are dropped "
+             "in replay mode and passed in trace mode; the snapshot write may stay in flight across kills and the next checkpoint, but one "
+             "publication (write + deletion of the old file + retention round to the operators) is one step; no new checkpoint is started "
+             "while one is pending or a node is dead (the job refuses / cannot complete it)."),
 }
